@@ -265,12 +265,24 @@ func execE2E(op string, a []sx) sx {
 	if err != nil {
 		return T("writeerr", A(clean(err.Error())))
 	}
+	// the records are collected (shallow copies, banks kept open) and looked at only after the whole file has
+	// been read, as a caller gathering a result set does: delivered values stay valid until their bank is closed
 	recs := T("recs")
+	var kept []reflect.Value
+	var banks []*avro.ResourceBank
 	rerr := avro.ReadFile(bufio.NewReader(bytes.NewReader(file)), reflect.New(t).Interface(), func(val unsafe.Pointer, rb *avro.ResourceBank) error {
-		recs.list = append(recs.list, dumpVal(reflect.NewAt(t, val).Elem()))
-		rb.Close()
+		cp := reflect.New(t)
+		cp.Elem().Set(reflect.NewAt(t, val).Elem())
+		kept = append(kept, cp)
+		banks = append(banks, rb)
 		return nil
 	})
+	for _, cp := range kept {
+		recs.list = append(recs.list, dumpVal(cp.Elem()))
+	}
+	for _, rb := range banks {
+		rb.Close()
+	}
 	res := A("ok")
 	if rerr != nil {
 		res = T("err", A(clean(rerr.Error())))
